@@ -159,7 +159,19 @@ def gen_argv(rng):
     elif lk == 'trap':
         argv += ['--trap-load=1,1e-5,1e-11', '--attach-load=1,2']
     elif lk == 'laplace':
-        argv += ['--laplace-load-b=1,2e-6,3e-12', '--laplace-load-a=0,1e-9', '--attach-load=1,1']
+        if rng.random() < 0.3:
+            argv += ['--laplace-load-b=1,2e-6,3e-12', '--laplace-load-a=0,1e-9', '--attach-load=1,1']
+        else:
+            # rational functions of order 1 .. 8 (several traps in series as one load): coefficient of s^d of the size
+            # (1e-6 .. 1e-8)^d so that every term matters in the HF range
+            order = rng.choice([1, 2, 3, 4, 4, 5, 6, 8])
+            tau = 10 ** rng.uniform(-8, -6.5)
+            b = [rng.uniform(0.5, 50) * tau ** d * rng.choice([1, 1, 0.3]) for d in range(order + 1)]
+            a = [rng.uniform(0.2, 2) * tau ** d for d in range(order + 1)]
+            if rng.random() < 0.3:
+                a[0] = 0.0
+            argv += ['--laplace-load-b=' + ','.join('%r' % x for x in b), '--laplace-load-a=' + ','.join('%r' % x for x in a),
+                     '--attach-load=1,%d' % rng.choice([1, 2])]
     elif lk == 'skin':
         argv += ['--skin-effect-conductivity=5.8e7']
     elif lk == 'coat':
@@ -276,6 +288,20 @@ def property_on_impl(argv, version):
     nseg = sum(w[0] for w in rd['wires'])
     if nseg != sum(w.n_segments for w in m.geo):
         return 'emulated wires have %d segments in total, model has %d' % (nseg, sum(w.n_segments for w in m.geo))
+    # loads given as S-parameters: the rational function the answers describe (BASIC version 9 takes the coefficients in
+    # microhenry / microfarad units, i.e. of s in 1e6/s) is the impedance the model uses for that pulse
+    if rd['loads'] and not any(isinstance(x[1], complex) for x in rd['loads']):
+        want = [(p.idx + 1, complex(l.impedance(m.f, p))) for l in m.loads for p in l.pulses]
+        if len(want) != len(rd['loads']):
+            return 'the input lists %d loads, the model has %d load/pulse pairs' % (len(rd['loads']), len(want))
+        sv = 2j * math.pi * m.f * 1e6 * (1e-6 if str(version) == '9' else 1.0)
+        for (pw, zw), (pg, cs) in zip(want, rd['loads']):
+            num = sum(c[0] * sv ** d for d, c in enumerate(cs))
+            den = sum(c[1] * sv ** d for d, c in enumerate(cs))
+            zg = num / den if den != 0 else complex('nan')
+            if pw != pg or not abs(zw - zg) <= 2e-5 * max(abs(zw), 1e-30) + 1e-12:
+                return ('load on pulse %d: the %d coefficient pairs written for BASIC version %s describe %r ohm at %g MHz, the model '
+                        'uses %r ohm (pulse answered: %d)' % (pw, len(cs), version, zg, m.f, zw, pg))
     # loads given as impedances: one answer per load and pulse, the value the model uses for that pulse
     if rd['loads'] and all(isinstance(x[1], complex) for x in rd['loads']):
         want = [(p.idx + 1, complex(l.impedance(m.f, p))) for l in m.loads for p in l.pulses]
